@@ -121,6 +121,12 @@ def build(pid, thorough=False):
             br.tables_changed = json.loads(g.stdout.strip().split("\n")[-1]).get("changed", [])
         except Exception:
             pass
+        # Audit/<pid>.lean is regenerated from the theorem names found in Properties/<pid>.lean
+        ths = property_theorems(pid)
+        audit = f"import NormModel.Properties.{pid}\n" + "".join(f"#print axioms {t}\n" for t in ths)
+        from gen_tables import write_if_changed
+        os.makedirs(os.path.join(LEAN, "NormModel", "Audit"), exist_ok=True)
+        write_if_changed(os.path.join(LEAN, "NormModel", "Audit", f"{pid}.lean"), audit)
         targets = ["driver", f"NormModel.Properties.{pid}", f"NormModel.Audit.{pid}"]
         br.checker_cmd = "cd lean && lake build " + " ".join(targets)
         try:
